@@ -273,6 +273,17 @@ OPS = {
                   lambda g, p, c: (x for i, x in enumerate(g)), None),
     'zip': ('{c}.zip([7, 8, 9, 10]).select($[0])',
             lambda g, p, c: (a for a, b in zip(g, [7, 8, 9, 10])), None),
+    'zip-as-argument': ('[-1, -2].zip({c}).select($[1])',
+                        lambda g, p, c: (b for a, b in zip([-1, -2], g)),
+                        None),
+    'zip-as-argument-3': ('[-1].zip([5, 6, 7], {c}).select($[2])',
+                          lambda g, p, c: (
+                              z for a, b, z in zip([-1], [5, 6, 7], g)),
+                          None),
+    'zipLongest-as-argument': (
+        '[-1, -2].zipLongest({c}).take(3).select($[1])',
+        lambda g, p, c: itertools.islice((b for a, b in itertools.zip_longest(
+            [-1, -2], g)), 3), None),
     'accumulate': ('{c}.accumulate({L})', op_accumulate, 'F'),
     'insert': ('{c}.insert({n}, -7)', op_insert, None),
     'delete': ('{c}.delete({n}, {m})', op_delete, None),
